@@ -199,6 +199,7 @@ class ABCTune(object):
       KEY_TO_SIG[key.lower()] = sig
 
   KEY_TO_PROTO_KEY = {
+      'b#': music_pb2.NoteSequence.KeySignature.C,
       'c': music_pb2.NoteSequence.KeySignature.C,
       'c#': music_pb2.NoteSequence.KeySignature.C_SHARP,
       'db': music_pb2.NoteSequence.KeySignature.D_FLAT,
@@ -206,6 +207,8 @@ class ABCTune(object):
       'd#': music_pb2.NoteSequence.KeySignature.D_SHARP,
       'eb': music_pb2.NoteSequence.KeySignature.E_FLAT,
       'e': music_pb2.NoteSequence.KeySignature.E,
+      'fb': music_pb2.NoteSequence.KeySignature.E,
+      'e#': music_pb2.NoteSequence.KeySignature.F,
       'f': music_pb2.NoteSequence.KeySignature.F,
       'f#': music_pb2.NoteSequence.KeySignature.F_SHARP,
       'gb': music_pb2.NoteSequence.KeySignature.G_FLAT,
@@ -216,6 +219,7 @@ class ABCTune(object):
       'a#': music_pb2.NoteSequence.KeySignature.A_SHARP,
       'bb': music_pb2.NoteSequence.KeySignature.B_FLAT,
       'b': music_pb2.NoteSequence.KeySignature.B,
+      'cb': music_pb2.NoteSequence.KeySignature.B,
   }
 
   SHARPS_ORDER = 'FCGDAEB'
